@@ -47,7 +47,10 @@ func (e *Exec) evalSpecArgs(st *State, fn *ssa.Function, args []Value, assertMod
 	}
 	defer func() { e.specBase = savedBase }()
 	savedStack := e.stack
+	savedAssert := e.specAssert
+	e.specAssert = assertMode
 	outs := e.callFunction(s2, &Frame{depth: 0}, fn, args, nil, token.NoPos)
+	e.specAssert = savedAssert
 	e.stack = savedStack
 	defs := e.specDefs
 	e.specDefs = saved
@@ -64,7 +67,9 @@ func (e *Exec) evalSpecArgs(st *State, fn *ssa.Function, args []Value, assertMod
 		}
 		alts = append(alts, And(delta, r))
 		for _, f := range o.st.facts[nf:] {
-			st.AssumeFact(f)
+			if !f.hasBound {
+				st.AssumeFact(f)
+			}
 		}
 	}
 	R := Or(alts...)
@@ -361,8 +366,12 @@ func (e *Exec) freshInput(st *State, name string, t types.Type) Value {
 }
 
 func (e *Exec) unrollBound(fn *ssa.Function, lp *Loop) int {
-	if sp := e.specs.ForFn(fn); sp != nil {
-		return sp.Unroll[lp.ordinal]
+	if e.inlineAll > 0 && e.specMode == 0 {
+		// bounded stand-in: per-loop bound if one is declared for the callee, else the lemma's bound
+		if sp := e.specs.ForFn(fn); sp != nil && sp.Unroll[lp.ordinal] > 0 {
+			return sp.Unroll[lp.ordinal]
+		}
+		return e.inlineAll
 	}
 	return 0
 }
@@ -382,7 +391,17 @@ func (e *Exec) VerifyFunction(sp *FnSpec, prop string) (err error) {
 	e.curFn = fnName(fn)
 	e.curLabels = []string{prop}
 	e.paths = 0
+	if e.pruner != nil {
+		e.pruneQueries += e.pruner.queries
+		e.pruneCuts += e.pruner.pruned
+		e.pruner.Close()
+		e.pruner = nil
+	}
 	e.topSpec = sp
+	e.inlineAll = sp.Bounded
+	if sp.Bounded > 0 {
+		e.note(fmt.Sprintf("BOUNDED: %s is checked with callees inlined and every loop unrolled at most %d times (a stand-in, not counted as an unbounded proof)", fnName(fn), sp.Bounded))
+	}
 	e.stack = []string{fn.String()}
 	st := e.initialState()
 	st.Assume(IntLe(IntConst(1), refTerm(0, 0)))
@@ -477,9 +496,9 @@ func (e *Exec) initialState() *State {
 
 // ---------- stubs filled in by later modules ----------
 
-func (e *Exec) sharedAccess(st *State, fr *Frame, p *PtrV, pos token.Pos) {}
+func (e *Exec) sharedAccess(st *State, fr *Frame, p *PtrV, pos token.Pos)        {}
 func (e *Exec) sharedAccessMap(st *State, fr *Frame, m ssa.Value, pos token.Pos) {}
-func (e *Exec) lockAcquired(st *State, l Loc)                              {}
+func (e *Exec) lockAcquired(st *State, l Loc)                                    {}
 
 func (e *Exec) selectInstr(st *State, fr *Frame, x *ssa.Select) []Outcome {
 	panic(unsupported("select statement"))
